@@ -310,6 +310,53 @@ def _process_options(opts):
         xr.set_options(arithmetic_join=opts["arithmetic_join"])
 
 
+def _arrays(c, out, path=""):
+    k = c.get("kind")
+    if k == "DataArray":
+        out[path + "/" + str(c["name"])] = c["var"]["values"]
+    elif k == "Dataset":
+        for n, v in c["vars"].items():
+            out[path + "/" + n] = v["values"]
+    elif k == "seq":
+        for i, x in enumerate(c["items"]):
+            _arrays(x, out, f"{path}[{i}]")
+    elif k == "dict":
+        for n, x in c["items"].items():
+            _arrays(x, out, f"{path}.{n}")
+    elif k == "ndarray":
+        out[path] = c["values"]
+    return out
+
+
+def _only_domain_edge_nans(a_c, b_c, rtol, atol):
+    """True when two results of a 'cancel'-class statistic (square root of a difference of nearly equal moments) differ
+    only like this: one side is NaN where the other is within rounding noise of zero (|x| <= 1e-6), i.e. the argument of
+    the square root sat at 0 +- a few ulps.  Which side of zero it falls is decided by the summation order and is not a
+    statement about the library (a single-frequency spectrum has spectral width 0 exactly: the in-memory evaluation gives
+    0.0 structurally, three separately reduced moments give sqrt(-1e-16))."""
+    A, B = _arrays(a_c, {}), _arrays(b_c, {})
+    if sorted(A) != sorted(B):
+        return False
+    seen = False
+    for n in A:
+        a, b = np.asarray(A[n]), np.asarray(B[n])
+        if a.shape != b.shape or a.dtype.kind != "f" or b.dtype.kind != "f":
+            if a.shape != b.shape or not np.array_equal(a, b):
+                return False
+            continue
+        na, nb = np.isnan(a), np.isnan(b)
+        diff = na != nb
+        if diff.any():
+            other = np.where(na, b, a)[diff]
+            if not (np.abs(other) <= 1e-6).all():
+                return False
+            seen = True
+        both = ~na & ~nb
+        if both.any() and not np.allclose(a[both], b[both], rtol=rtol or 0.0, atol=max(atol or 0.0, 1e-6 if seen else 0.0)):
+            return False
+    return seen
+
+
 def _filters_digest():
     return digest([repr(f) for f in warnings.filters])
 
@@ -400,6 +447,10 @@ def execute(arg):
         add("sync", cause, type(exc).__name__, f"compute(scheduler='sync') raises {type(exc).__name__}: {exc}")
         return finish()
     d = cmp.compare(ref_c, sync_c, rtol=rtol, atol=atol)
+    if d and cls == "cancel" and d[0] == "nan-position" and _only_domain_edge_nans(ref_c, sync_c, rtol, atol):
+        sim.count("ill_conditioned_skipped")
+        sim.count("domain_edge_nan_skipped")
+        d = None
     if d and cls != "exact" and d[0] in ("value", "nan-position"):
         # conditioning guard: does a 1-ulp perturbation of the input move the in-memory answer as much?
         try:
@@ -442,6 +493,9 @@ def execute(arg):
         # two lazy results that exist at the same time are each still the in-memory answer of their own dataset
         for which, got, base, want in pair_refs:
             dj = cmp.compare(want, got, rtol=rtol, atol=atol)
+            if dj and cls == "cancel" and dj[0] == "nan-position" and _only_domain_edge_nans(want, got, rtol, atol):
+                sim.count("ill_conditioned_skipped")
+                dj = None
             if dj and cls != "exact" and dj[0] in ("value", "nan-position"):
                 try:
                     for k in range(6 if cls == "fit" else 2):
